@@ -253,6 +253,45 @@ theorem c14_draw_in_window (ivs : List (K × K)) (t0 t1 u : K)
   have := (c14_between_eq_inter ivs t0 t1 x).mp ⟨q, hq, hq1, hq2⟩
   exact ⟨x, hx, this.1, this.2.1, this.2.2⟩
 
+/-- **matching live time of a data subset**: the live time of the window-restricted interval
+list equals (on-time before `t1`) − (on-time before `t0`), i.e. the on-time inside the window. -/
+theorem c14_subset_livetime (ivs : List (K × K)) (t0 t1 : K) (h01 : t0 ≤ t1)
+    (hw : ∀ p ∈ ivs, p.1 ≤ p.2) :
+    C14.total (betweenSpec ivs t0 t1) = C14.uptoSpec ivs t1 - C14.uptoSpec ivs t0 := by
+  induction ivs with
+  | nil => simp [betweenSpec, C14.total, C14.uptoSpec]
+  | cons p rest ih =>
+    have hp : p.1 ≤ p.2 := hw p (by simp)
+    have ih' := ih (fun q hq => hw q (List.mem_cons_of_mem _ hq))
+    have hu : ∀ t, C14.uptoSpec (p :: rest) t = (min p.2 t - min p.1 t) + C14.uptoSpec rest t := by
+      intro t; simp [C14.uptoSpec]
+    rw [C14.betweenSpec_cons, hu t1, hu t0]
+    by_cases hc : t0 < p.2 ∧ p.1 ≤ t1
+    · rw [if_pos hc]
+      have : C14.total (((if p.1 ≤ t0 then t0 else p.1), (if t1 < p.2 then t1 else p.2)) :: betweenSpec rest t0 t1)
+          = ((if t1 < p.2 then t1 else p.2) - (if p.1 ≤ t0 then t0 else p.1)) + C14.total (betweenSpec rest t0 t1) := by
+        simp [C14.total]
+      rw [this, ih']
+      obtain ⟨h1, h2⟩ := hc
+      have e1 : min p.2 t0 = t0 := min_eq_right (le_of_lt h1)
+      have e2 : min p.1 t1 = p.1 := min_eq_left h2
+      rw [e1, e2]
+      by_cases ha : p.1 ≤ t0 <;> by_cases hb : t1 < p.2
+      · rw [if_pos ha, if_pos hb, min_eq_left ha, min_eq_right (le_of_lt hb)]; ring
+      · rw [if_pos ha, if_neg hb, min_eq_left ha, min_eq_left (not_lt.mp hb)]; ring
+      · rw [if_neg ha, if_pos hb, min_eq_right (le_of_lt (not_le.mp ha)), min_eq_right (le_of_lt hb)]; ring
+      · rw [if_neg ha, if_neg hb, min_eq_right (le_of_lt (not_le.mp ha)), min_eq_left (not_lt.mp hb)]; ring
+    · rw [if_neg hc, ih']
+      have : min p.2 t1 - min p.1 t1 - (min p.2 t0 - min p.1 t0) = 0 := by
+        by_cases h1 : t0 < p.2
+        · have h2 : t1 < p.1 := not_le.mp (fun h => hc ⟨h1, h⟩)
+          rw [min_eq_right (le_of_lt (lt_of_lt_of_le h2 hp)), min_eq_right (le_of_lt h2),
+            min_eq_right (le_of_lt h1), min_eq_right (le_trans h01 (le_of_lt h2))]; ring
+        · have h1' : p.2 ≤ t0 := not_lt.mp h1
+          rw [min_eq_left (le_trans h1' h01), min_eq_left (le_trans hp (le_trans h1' h01)),
+            min_eq_left h1', min_eq_left (le_trans hp h1')]; ring
+      linarith
+
 end field
 
 -- non-vacuity: a concrete sorted interval set with a touching pair and a zero-length interval
